@@ -1334,6 +1334,11 @@ impl Zeroconf {
                 debug!("Unregistering service during shutdown: {}", &fullname);
 
                 for intf in self.my_intfs.values() {
+                    // Nothing to withdraw where the service was never announced.
+                    if info.get_status(intf.index) != ServiceStatus::Announced {
+                        continue;
+                    }
+
                     if let Some(sock) = self.ipv4_sock.as_ref() {
                         self.unregister_service(info, intf, &sock.pktinfo);
                     }
@@ -3735,6 +3740,11 @@ impl Zeroconf {
                 let mut timers = Vec::new();
 
                 for (if_index, intf) in self.my_intfs.iter() {
+                    // Nothing to withdraw where the service was never announced.
+                    if info.get_status(*if_index) != ServiceStatus::Announced {
+                        continue;
+                    }
+
                     if let Some(sock) = self.ipv4_sock.as_ref() {
                         let packet = self.unregister_service(&info, intf, &sock.pktinfo);
                         // repeat for one time just in case some peers miss the message
